@@ -76,6 +76,13 @@ Theorem C11_merge_pv kind c_pv c_full res : pv_operand_ok c_pv -> wf_clause c_fu
   end.
 Proof. exact (vmerge_pv_sound kind c_pv c_full res). Qed.
 
+(* literal-on-the-left atoms: evaluated as Specifier(op-as-written, env value).contains(literal); with the operator stored reflected,
+   that is the evaluation of the mirrored atom, whose specifier view C11_view covers (final literal; a pre/post-release literal is
+   excluded as a candidate by PEP 440 and such atoms are never merged since fix 004ebf8) *)
+Theorem C11_reversed c v : (c_op c = OpLt \/ c_op c = OpLe \/ c_op c = OpGt \/ c_op c = OpGe \/ c_op c = OpEq \/ c_op c = OpNe) ->
+  atom_sem_rev c v = atom_sem c v.
+Proof. exact (reversed_sem c v). Qed.
+
 Theorem C11_padding k v : clause_sem (pad_pfv k) v = clause_sem k v.
 Proof. exact (pad_pfv_sem k v). Qed.
 
@@ -93,5 +100,5 @@ Example C11_pv_runs :
   /\ vmerge_pv true (mkClause OpGt (relver 0 [3; 7]%N)) (mkClause OpGe (relver 0 [3; 8; 5]%N)) = Ret (VMAtom (mkClause OpGe (relver 0 [3; 8; 5]%N))).
 Proof. split; [split; [reflexivity | cbn; auto] | vm_compute; reflexivity]. Qed.
 
-Definition C11_all := (C11_view, C11_back, C11_padding, C11_merge, C11_normalize, C11_merge_pv).
+Definition C11_all := (C11_view, C11_back, C11_padding, C11_merge, C11_normalize, C11_merge_pv, C11_reversed).
 Redirect "C11.assumptions" Print Assumptions C11_all.
